@@ -123,8 +123,37 @@ class Repo:
                 c.bases = [self._resolve_base(m, b) for b in c.node.bases]
         for m in self.modules.values():
             for c in m.classes.values():
+                self._expand_applied_rule_decorators(m, c)
                 self._expand_partialmethods(m, c)
                 self._expand_method_factories(m, c)
+
+    def _expand_applied_rule_decorators(self, m: Module, c: "ClassInfo"):
+        """NAME = _(<patterns>)(<function-valued expression>) in a SLY Lexer/Parser body is the explicit application of the rule
+        decorator; it is modelled by the decorated definition it abbreviates
+            @_(<patterns>)
+            def NAME(self, *args, **kwargs): return (<expression>)(self, *args, **kwargs)"""
+        for name, value in list(c.assigns.items()):
+            if not (isinstance(value, ast.Call) and len(value.args) == 1 and not value.keywords and isinstance(value.func, ast.Call)
+                    and isinstance(value.func.func, ast.Name) and value.func.func.id == "_" and not isinstance(value.args[0], ast.Starred)):
+                continue
+            call = ast.Call(func=value.args[0], args=[ast.Name(id="self", ctx=ast.Load()), ast.Starred(value=ast.Name(id="args", ctx=ast.Load()), ctx=ast.Load())],
+                            keywords=[ast.keyword(arg=None, value=ast.Name(id="kwargs", ctx=ast.Load()))])
+            fn = ast.FunctionDef(name=name, args=ast.arguments(posonlyargs=[], args=[ast.arg(arg="self")], vararg=ast.arg(arg="args"),
+                                                                kwonlyargs=[], kw_defaults=[], kwarg=ast.arg(arg="kwargs"), defaults=[]),
+                                 body=[ast.Return(value=call)], decorator_list=[value.func], returns=None, type_comment=None)
+            try:
+                fn.type_params = []  # type: ignore[attr-defined]
+            except Exception:
+                pass
+            ast.copy_location(fn, value)
+            for n in ast.walk(fn):
+                if not hasattr(n, "lineno"):
+                    ast.copy_location(n, value)
+            ast.fix_missing_locations(fn)
+            c.methods[name] = fn
+            del c.assigns[name]
+            c.all_defs = [(n, (fn if n == name else d)) for n, d in c.all_defs]
+            c.node.body = [fn if (isinstance(b, ast.Assign) and b.value is value) else b for b in c.node.body]
 
     def _expand_method_factories(self, m: Module, c: "ClassInfo"):
         """NAME = factory(...) in a class body, where `factory` is an in-repo function that returns a function it defines
@@ -815,17 +844,39 @@ class Schema:
         frozen = False
         eq = True
         for d in ci.node.decorator_list:
-            target = d.func if isinstance(d, ast.Call) else d
-            q = self.repo.resolve_expr(ci.module, target)
-            if q in ("dataclasses.dataclass",):
+            kws = self._dataclass_kwargs(ci.module, d, applied=True)
+            if kws is not None:
                 is_dc = True
-                if isinstance(d, ast.Call):
-                    for kw in d.keywords:
-                        if kw.arg == "frozen":
-                            frozen = isinstance(kw.value, ast.Constant) and kw.value.value is True
-                        if kw.arg == "eq":
-                            eq = not (isinstance(kw.value, ast.Constant) and kw.value.value is False)
+                if "frozen" in kws:
+                    frozen = isinstance(kws["frozen"], ast.Constant) and kws["frozen"].value is True
+                if "eq" in kws:
+                    eq = not (isinstance(kws["eq"], ast.Constant) and kws["eq"].value is False)
         return is_dc, frozen, eq
+
+    def _dataclass_kwargs(self, module, d: ast.expr, applied: bool, depth: int = 0) -> Optional[Dict[str, ast.expr]]:
+        """The keyword arguments with which `d`, used as a class decorator, applies dataclasses.dataclass; None when it does not.
+        Recognised: dataclass, dataclass(**kw), functools.partial(dataclass, **kw), a module-level name bound once to one of
+        these, and such a name called with more keywords."""
+        if depth > 4:
+            return None
+        if isinstance(d, ast.Name) and d.id in module.assigns and len(module.assigns[d.id]) == 1 and d.id not in module.classes \
+                and d.id not in module.functions:
+            return self._dataclass_kwargs(module, module.assigns[d.id][0], applied, depth + 1)
+        q = self.repo.resolve_expr(module, d) if isinstance(d, (ast.Name, ast.Attribute)) else None
+        if q == "dataclasses.dataclass":
+            return {}
+        if isinstance(d, ast.Call) and not any(k.arg is None for k in d.keywords):
+            fq = self.repo.resolve_expr(module, d.func) if isinstance(d.func, (ast.Name, ast.Attribute)) else None
+            kw = {k.arg: k.value for k in d.keywords}
+            if fq == "dataclasses.dataclass" and not d.args:
+                return kw
+            if fq == "functools.partial" and len(d.args) == 1:
+                inner = self._dataclass_kwargs(module, d.args[0], applied, depth + 1)
+                return None if inner is None else {**inner, **kw}
+            if not d.args and isinstance(d.func, ast.Name):
+                inner = self._dataclass_kwargs(module, d.func, applied, depth + 1)
+                return None if inner is None else {**inner, **kw}
+        return None
 
     def _field(self, st: ast.AnnAssign) -> FieldInfo:
         ann = ast.unparse(st.annotation)
